@@ -626,7 +626,13 @@ impl<SE: extensions::ShellExtensions> ExecuteInPipeline<SE> for ast::Command {
                 // Set up any additional redirects.
                 if let Some(redirects) = redirects {
                     for redirect in &redirects.0 {
-                        setup_redirect(&mut pipeline_context.shell, &mut params, redirect).await?;
+                        if let Err(e) =
+                            setup_redirect(&mut pipeline_context.shell, &mut params, redirect).await
+                        {
+                            // As for simple commands: report, fail this command only.
+                            writeln!(params.stderr(&pipeline_context.shell), "error: {e}")?;
+                            return Ok(ExecutionResult::general_error().into());
+                        }
                     }
                 }
 
